@@ -70,44 +70,89 @@ func judge(s string) string {
 	return ""
 }
 
-// shrink: greedy byte-wise deletion, then letter canonicalisation, re-running
-// the ns-cheap oracle; the fixed point is the canonical witness.
+// shrink: greedy byte-wise deletion to a fixed point, then canonicalisation
+// (letters -> 'a', blanks and controls -> TAB where the oracle keeps failing),
+// repeated until nothing changes; the fixed point is the canonical witness.
 func shrink(s string, bad func(string) bool) string {
-	for changed := true; changed; {
-		changed = false
-		for i := 0; i < len(s); i++ {
-			t := s[:i] + s[i+1:]
-			if bad(t) {
-				s, changed = t, true
-				i--
+	for {
+		before := s
+		for changed := true; changed; {
+			changed = false
+			for i := 0; i < len(s); i++ {
+				t := s[:i] + s[i+1:]
+				if bad(t) {
+					s, changed = t, true
+					i--
+				}
 			}
 		}
-	}
-	b := []byte(s)
-	for i := range b {
-		var r byte
-		switch {
-		case b[i] >= 'b' && b[i] <= 'z':
-			r = 'a'
-		case b[i] >= 'A' && b[i] <= 'Z':
-			r = b[i] + 'a' - 'A'
-		case b[i] < 0x20 && b[i] != '\t':
-			r = '\t'
-		default:
-			continue
+		b := []byte(s)
+		for i := range b {
+			var cands []byte
+			switch {
+			case b[i] >= 'b' && b[i] <= 'z':
+				cands = []byte{'a'}
+			case b[i] >= 'A' && b[i] <= 'Z':
+				cands = []byte{'a', b[i] + 'a' - 'A'}
+			case b[i] <= 0x20 && b[i] != '\t':
+				cands = []byte{'\t'}
+			}
+			old := b[i]
+			for _, r := range cands {
+				b[i] = r
+				if bad(string(b)) {
+					break
+				}
+				b[i] = old
+			}
 		}
-		old := b[i]
-		b[i] = r
-		if !bad(string(b)) {
-			b[i] = old
+		s = string(b)
+		if s == before {
+			return s
 		}
 	}
-	return string(b)
 }
 
-func reportURL(c *core.Ctx, s string) {
+// found collects reduced in-proc witnesses; only the few smallest are
+// reported (one root cause has many 1-minimal witnesses).
+type found struct {
+	mu sync.Mutex
+	m  map[string]string // reduced witness -> first raw input
+}
+
+func (f *found) add(s string) {
 	m := shrink(s, func(t string) bool { return judge(t) != "" })
-	c.Violate("url "+core.Q(m), judge(m)+fmt.Sprintf(" [first seen as %q]", s), Case{Kind: "url", S: enc(m)})
+	f.mu.Lock()
+	if _, ok := f.m[m]; !ok {
+		f.m[m] = s
+	}
+	f.mu.Unlock()
+}
+
+const maxURLKeys = 5
+
+func (f *found) report(c *core.Ctx) {
+	var ks []string
+	for k := range f.m {
+		ks = append(ks, k)
+	}
+	sort.Slice(ks, func(a, b int) bool {
+		if len(ks[a]) != len(ks[b]) {
+			return len(ks[a]) < len(ks[b])
+		}
+		return ks[a] < ks[b]
+	})
+	c.Set("sanitiser_distinct_reduced_witnesses", len(ks))
+	for i, m := range ks {
+		if i >= maxURLKeys {
+			break
+		}
+		more := ""
+		if len(ks) > maxURLKeys {
+			more = fmt.Sprintf(" [%d distinct reduced witnesses in this run, the %d smallest are reported]", len(ks), maxURLKeys)
+		}
+		c.Violate("url "+core.Q(m), judge(m)+fmt.Sprintf(" [first seen as %q]", f.m[m])+more, Case{Kind: "url", S: enc(m)})
+	}
 }
 
 // ------------------------------------------------------------ generators
@@ -237,7 +282,7 @@ func enumerate(syms []string, first, maxLen int, f func(s string, idx []int)) {
 	rec(syms[first])
 }
 
-func inProc(c *core.Ctx) (e2eValues []string) {
+func inProc(c *core.Ctx, fd *found) (e2eValues []string) {
 	var accepted, rejected, overblocked int64
 	count := func(s string) {
 		out := string(templ.URL(s))
@@ -253,7 +298,7 @@ func inProc(c *core.Ctx) (e2eValues []string) {
 	check := func(s string) {
 		count(s)
 		if judge(s) != "" {
-			reportURL(c, s)
+			fd.add(s)
 		}
 	}
 
@@ -268,7 +313,7 @@ func inProc(c *core.Ctx) (e2eValues []string) {
 	for i, t := range tokens {
 		tokInChars[i] = charSet[t]
 	}
-	maxTok := c.Pick(3, 4)
+	maxTok := c.Pick(4, 5)
 	var nTok, ntTok int64
 	check("")
 	parallel(len(tokens), func(first int) {
@@ -291,7 +336,7 @@ func inProc(c *core.Ctx) (e2eValues []string) {
 		atomic.AddInt64(&ntTok, nt)
 	})
 	// ---- exhaustive character strings
-	maxCh := c.Pick(5, 6)
+	maxCh := c.Pick(6, 7)
 	var nCh, ntCh int64
 	parallel(len(charSyms)*len(charSyms), func(k int) {
 		a, b := k/len(charSyms), k%len(charSyms)
@@ -307,7 +352,6 @@ func inProc(c *core.Ctx) (e2eValues []string) {
 			visit(charSyms[a]) // length-1 strings once per first symbol
 		}
 		pre := charSyms[a] + charSyms[b]
-		idx := make([]int, 0, maxCh)
 		var rec func(p string, d int)
 		rec = func(p string, d int) {
 			visit(p)
@@ -318,7 +362,6 @@ func inProc(c *core.Ctx) (e2eValues []string) {
 				rec(p+t, d+1)
 			}
 		}
-		_ = idx
 		rec(pre, 2)
 		atomic.AddInt64(&nCh, n)
 		atomic.AddInt64(&ntCh, nt)
@@ -429,6 +472,10 @@ templ CA(s string) {
 	<a data-a="1" if true { href={ templ.URL(s) } } data-z="2">t</a>
 }
 
+templ SP(at templ.Attributes) {
+	<a data-a="1" { at... } data-z="2">t</a>
+}
+
 templ CF(s string) {
 	<form data-a="1" if false { data-n="0" } else { action={ templ.URL(s) } } data-z="2">t</form>
 }
@@ -460,7 +507,8 @@ type res struct {
 }
 
 func main() {
-	reg := map[string]func(string) templ.Component{"A": A, "F": F, "CA": CA, "CF": CF}
+	reg := map[string]func(string) templ.Component{"A": A, "F": F, "CA": CA, "CF": CF,
+		"SP": func(s string) templ.Component { return SP(templ.Attributes{"href": s}) }}
 	in := bufio.NewScanner(os.Stdin)
 	in.Buffer(make([]byte, 1<<20), 1<<26)
 	out := bufio.NewWriter(os.Stdout)
@@ -484,6 +532,11 @@ func main() {
 `
 
 var sinks = []struct{ name, elem, attr string }{{"A", "a", "href"}, {"F", "form", "action"}, {"CA", "a", "href"}, {"CF", "form", "action"}}
+
+// spreadSink is observed, not judged: spread attributes (templ.Attributes) are a
+// dynamic attribute *set*; the typing clause of the statement is designed around
+// href={…}/action={…} expressions. What it renders is recorded in the evidence.
+const spreadSink = 4
 
 // judgeE2E decides one rendered output. "" = held.
 //
@@ -521,6 +574,12 @@ func judgeE2E(elem, attr, s string, rendered []byte) string {
 	return ""
 }
 
+// ejob is one render job: sink index and input string.
+type ejob struct {
+	sink int
+	s    string
+}
+
 type e2ePkg struct {
 	p   *corpus.Pkg
 	bin string
@@ -542,13 +601,14 @@ func buildE2E(c *core.Ctx) *e2ePkg {
 	return &e2ePkg{p, bin}
 }
 
-func (e *e2ePkg) run(c *core.Ctx, jobs []struct {
-	sink int
-	s    string
-}) map[int][]byte {
+func (e *e2ePkg) run(c *core.Ctx, jobs []ejob) map[int][]byte {
 	var in bytes.Buffer
 	for i, j := range jobs {
-		fmt.Fprintf(&in, "{\"i\":%d,\"k\":%q,\"s\":%q}\n", i, sinks[j.sink].name, enc(j.s))
+		name := "SP"
+		if j.sink != spreadSink {
+			name = sinks[j.sink].name
+		}
+		fmt.Fprintf(&in, "{\"i\":%d,\"k\":%q,\"s\":%q}\n", i, name, enc(j.s))
 	}
 	r := corpus.Run(e.bin, nil, in.Bytes(), nil, e.p.Dir, 10*time.Minute)
 	if r.TimedOut || r.Err != nil {
@@ -583,16 +643,10 @@ func endToEnd(c *core.Ctx, values []string) {
 		return
 	}
 	defer e.p.Close()
-	var jobs []struct {
-		sink int
-		s    string
-	}
+	var jobs []ejob
 	for si := range sinks {
 		for _, v := range values {
-			jobs = append(jobs, struct {
-				sink int
-				s    string
-			}{si, v})
+			jobs = append(jobs, ejob{si, v})
 		}
 	}
 	res := e.run(c, jobs)
@@ -602,13 +656,10 @@ func endToEnd(c *core.Ctx, values []string) {
 	if len(res) != len(jobs) {
 		c.Inconclusive(fmt.Sprintf("driver answered %d of %d jobs", len(res), len(jobs)))
 	}
-	type bad struct {
-		sink int
-		s    string
-	}
+	type bad ejob
 	var mu sync.Mutex
 	var bads []bad
-	var escaped int64
+	var escaped, attributed int64
 	parallel(len(jobs), func(i int) {
 		b, ok := res[i]
 		if !ok {
@@ -619,6 +670,10 @@ func endToEnd(c *core.Ctx, values []string) {
 			atomic.AddInt64(&escaped, 1)
 		}
 		if judgeE2E(sinks[j.sink].elem, sinks[j.sink].attr, j.s, b) != "" {
+			if judge(j.s) != "" { // the sanitiser itself already fails on this input: reported there
+				atomic.AddInt64(&attributed, 1)
+				return
+			}
 			mu.Lock()
 			bads = append(bads, bad{j.sink, j.s})
 			mu.Unlock()
@@ -633,8 +688,12 @@ func endToEnd(c *core.Ctx, values []string) {
 	c.Set("e2e_renders", len(res))
 	c.Set("e2e_sinks", len(sinks))
 	c.Set("e2e_outputs_with_character_references", escaped)
+	c.Set("e2e_violations_attributed_to_the_sanitiser", attributed)
 	if b, ok := res[0]; ok {
 		c.Sample(map[string]any{"sink": sinks[jobs[0].sink].name, "in": jobs[0].s, "rendered": string(b)})
+	}
+	if r := e.run(c, []ejob{{spreadSink, "javascript:alert(1)"}}); r != nil {
+		c.Set("informational:spread_attributes_href_javascript_rendered_as", string(r[0]))
 	}
 	// reduce: shrink per sink by re-rendering candidate batches (one driver run per round)
 	sort.Slice(bads, func(a, b int) bool {
@@ -653,10 +712,7 @@ func endToEnd(c *core.Ctx, values []string) {
 		}
 		done[b.sink]++
 		m := e.shrink(c, b.sink, b.s)
-		r := e.run(c, []struct {
-			sink int
-			s    string
-		}{{b.sink, m}})
+		r := e.run(c, []ejob{{b.sink, m}})
 		msg := judgeE2E(sinks[b.sink].elem, sinks[b.sink].attr, m, r[0])
 		c.Violate(fmt.Sprintf("e2e %s/%s %s", sinks[b.sink].elem, sinks[b.sink].attr, core.Q(m)), msg, Case{Kind: "e2e", Sink: sinks[b.sink].name, S: enc(m)})
 	}
@@ -667,20 +723,14 @@ func endToEnd(c *core.Ctx, values []string) {
 // is taken.
 func (e *e2ePkg) shrink(c *core.Ctx, sink int, s string) string {
 	for round := 0; round < 200 && len(s) > 0; round++ {
-		var jobs []struct {
-			sink int
-			s    string
-		}
+		var jobs []ejob
 		for i := 0; i < len(s); i++ {
-			jobs = append(jobs, struct {
-				sink int
-				s    string
-			}{sink, s[:i] + s[i+1:]})
+			jobs = append(jobs, ejob{sink, s[:i] + s[i+1:]})
 		}
 		res := e.run(c, jobs)
 		found := false
 		for i := range jobs {
-			if b, ok := res[i]; ok && judgeE2E(sinks[sink].elem, sinks[sink].attr, jobs[i].s, b) != "" {
+			if b, ok := res[i]; ok && judge(jobs[i].s) == "" && judgeE2E(sinks[sink].elem, sinks[sink].attr, jobs[i].s, b) != "" {
 				s, found = jobs[i].s, true
 				break
 			}
@@ -760,9 +810,11 @@ func judgeProbe(c *core.Ctx, p Probe, r probeResult) {
 	case r.genErr:
 		c.Inconclusive("templ generate rejected typing probe " + p.String() + ": " + corpus.Tail(r.out, 300))
 	case p.Plain && !r.buildErr:
-		c.Violate("typing: plain string accepted, "+p.class(),
-			fmt.Sprintf("%s compiles although the expression is a plain string: the generator routes the value through templ.SafeURL only for the exact lower-case spelling, while browsers treat element and attribute names case-insensitively (so %s=\"javascript:…\" is a live link)", p.String(), p.Attr),
-			Case{Kind: "typing", Probe: &p})
+		why := "the generator does not route this href/action expression through a templ.SafeURL-typed variable"
+		if !canonical {
+			why = "the generator routes the value through templ.SafeURL only for the exact lower-case spelling, while browsers treat element and attribute names ASCII case-insensitively (so " + p.Attr + "=\"javascript:…\" is a live link)"
+		}
+		c.Violate("typing: plain string accepted, "+p.class(), fmt.Sprintf("%s compiles although the expression is a plain string: %s", p.String(), why), Case{Kind: "typing", Probe: &p})
 	case p.Plain && !strings.Contains(r.out, "templ.SafeURL"):
 		c.Inconclusive("typing probe " + p.String() + " failed to build, but not with a SafeURL type error: " + corpus.Tail(r.out, 300))
 	case !p.Plain && r.buildErr && canonical:
@@ -813,7 +865,9 @@ func Run(c *core.Ctx) {
 		replay(c)
 		return
 	}
-	vals := inProc(c)
+	fd := &found{m: map[string]string{}}
+	vals := inProc(c, fd)
+	fd.report(c)
 	endToEnd(c, vals)
 	typing(c)
 }
@@ -840,10 +894,7 @@ func replay(c *core.Ctx) {
 				continue
 			}
 			s := dec(cs.S)
-			r := e.run(c, []struct {
-				sink int
-				s    string
-			}{{si, s}})
+			r := e.run(c, []ejob{{si, s}})
 			if m := judgeE2E(sk.elem, sk.attr, s, r[0]); m != "" {
 				c.Violate(fmt.Sprintf("e2e %s/%s %s", sk.elem, sk.attr, core.Q(s)), m, cs)
 			}
